@@ -126,6 +126,13 @@ def build_filters(ctx, features_drop=()):
     for k in ("0", "1", "2", "3", "7"):
         filters += [ast.Compare(ast.Eq(), call("length", I("s1")), ast.Integer(k)), ast.Compare(ast.Eq(), ast.BinOp(ast.Add(), call("length", I("s1")), ast.Integer(k)), ast.Integer("3")),
                     ast.Compare(ast.Gt(), ast.BinOp(ast.Mult(), I("i1"), ast.Integer(k)), ast.Integer("2"))]
+    # in-lists of 1 001 / 1 500 / 2 500 elements whose only elements that are row values sit at the END (a backend that splits or truncates long lists)
+    for n, tail in ((1001, ["7"]), (1500, ["2", "-7"]), (2500, ["3"]), (999, ["1"])):
+        items = [ast.Integer(str(100000 + k)) for k in range(n - len(tail))] + [ast.Integer(t) for t in tail]
+        filters.append(ast.Compare(ast.In(), I("i1"), ast.List(items)))
+        filters.append(ast.UnaryOp(ast.Not(), ast.Compare(ast.In(), I("i2"), ast.List(items))))
+    sitems = [S("zz%d" % k) for k in range(1100)] + [S("ab"), S("O'B")]
+    filters.append(ast.Compare(ast.In(), I("s1"), ast.List(sitems)))
     uniq = sc.dedup(filters)
     nodes = [n for w, n in uniq]
     texts = texts_of(nodes)
@@ -263,10 +270,12 @@ def run(ctx, pid="C02"):
         drop = ("indexof", "concat")       # strpos / concat do not exist on SQLite: outside the supported fragment there
     # FIRST thing translated in this process: FLOAT literals equal to the integers the filters use (and strings equal to their spellings, Booleans equal
     # to 0 / 1): a translation must not depend on which spelling of a value was translated earlier in the process
-    for t in ["f1 lt 2.0 or f1 gt 7.0", "f1 ne 1.0 and f1 ne 0.0", "f1 eq 3.0 or f1 eq -1.0 or f1 eq -7.0 or f1 eq -2.0", "f1 lt 4.0 and f1 gt -4.0 and f1 ne -3.0", "s1 eq '2' or s1 eq '7' or s1 eq 'true'",
-              "b1 eq true or b1 eq false"]:
-        for sname, fn in styles:
-            fn(t)
+    def prime():
+      for t in ["f1 lt 2.0 or f1 gt 7.0", "f1 ne 1.0 and f1 ne 0.0", "f1 eq 3.0 or f1 eq -1.0 or f1 eq -7.0 or f1 eq -2.0", "f1 lt 4.0 and f1 gt -4.0 and f1 ne -3.0", "s1 eq '2' or s1 eq '7' or s1 eq 'true'",
+                "b1 eq true or b1 eq false"]:
+          for sname, fn in styles:
+              fn(t)
+    prime()
     cases = build_filters(ctx, drop)
     rng = ctx.rng
     rows_sets = [sm.product_rows()[:: (1 if ctx.thorough else 3)]] + [sm.rows_for(rng, 40) for _ in range(2 if ctx.thorough else 1)]
@@ -280,6 +289,7 @@ def run(ctx, pid="C02"):
                       model_reqs=(lambda c: driver.req("djbuild", c[0])) if pid == "C02" else (lambda c: driver.req("sabuild", "orm", "id,i1,i2,f1,s1,s2,b1,d1,dt1", c[0])),
                       model_parse=lambda m: "ok" if m.startswith("ok ") else m, nontrivial=lambda c, r: r == "ok", describe=lambda c: c[2],
                       bucket=lambda c, r: backend + "/" + " ".join(r.split(" ")[:2]))
+    prime()     # again right before the semantic pass: the outcome pass above has translated every filter once (long lists flush value-keyed caches)
     viol, env_mis, tally, dist, kf_hits, refusal = run_semantic(ctx, pid, backend, styles, cases, rows_sets)
     viol += case_twins(ctx, pid, backend, styles, cases, sm.rows_for(rng, 24))
     # numeric stream: floor / ceiling / round over a fractional column, judged against Spec.NumFn (Lean)
